@@ -214,6 +214,12 @@ def _np_array(ex, st, args, kw, node):
             return ex.alloc_arr(st, (z3.IntVal(len(vals)),), a, elem, "fresh", tag="array")
     if isinstance(x, SeqV) and getattr(x, "as_array", None):
         return x.as_array(ex, st)
+    from . import objects
+    if isinstance(x, objects.SLRef):
+        d = st.heap[x.sid]
+        if d.cls is None:
+            elem = "real" if d.arr.sort().range() == R else ("int" if d.arr.sort().range() == I else "bool")
+            return ex.alloc_arr(st, (d.length,), d.arr, elem, "fresh", tag="array")
     raise Undecided("np.array of this value")
 
 
@@ -245,6 +251,8 @@ def _reduce(fn):
             data = ex.lam1(lambda i: z3.ToReal(ex.sel1(d, i)))
         if d.elem == "bool":
             if fn is SUM:
+                if d.count_term is not None:
+                    return d.count_term
                 return COUNT(d.data, d.shape[0])
             raise Undecided("reduction of bool array")
         return fn(data, d.shape[0])
